@@ -387,6 +387,11 @@ pub fn run(a: &Args) {
     guarded(&mut r, "C19|Dr7Value|unexpected-panic", || "dr7".into(), |r| dr7(r));
     // exception-vector numbers as the IDT lays them out: each named field at 16 x its vector
     guarded(&mut r, "C19|named-field|unexpected-panic", || "field".into(), |r| crate::c12::named_field_placement(r, "C19"));
+    // exception-vector numbers as the general-handler stubs report them: the stub installed for a named exception is entered
+    // with a hardware-format frame and must hand the general handler that exception's vector number
+    for v in [0u8, 3, 8, 10, 11, 12, 13, 14, 17, 18, 21, 28, 29, 30] {
+        crate::c13::entry_vector(&mut r, v);
+    }
     // PAT conversion through the register wrapper (the rdmsr is emulated): every byte value in every slot
     guarded(&mut r, "C19|Pat::read|unexpected-panic", || "patimage".into(), |r| crate::c16::pat_images(r, "C19"));
     // privilege-level field of descriptors (bits 45-46 of the first word, for user and system descriptors alike)
